@@ -3,6 +3,8 @@
 package impl
 
 import (
+	"unsafe"
+
 	"google.golang.org/protobuf/encoding/protowire"
 	"google.golang.org/protobuf/internal/zzverif/nd"
 	"google.golang.org/protobuf/reflect/protoreflect"
@@ -256,4 +258,45 @@ func H_M1_depth() {
 	if mScan(b) && depth == 0 {
 		nd.Assert(err != nil, "recursion limit 0 admits no message at all")
 	}
+}
+
+// vReqComplete is the reference required-field check written against the mirror types.
+func vReqComplete(r *VReq) bool { return r == nil || (r.R1 != nil && r.R3 != nil) }
+
+func vCycAComplete(a *VCycA, depth int) bool {
+	if a == nil || depth == 0 {
+		return true
+	}
+	ok := vReqComplete(a.R)
+	if a.B != nil {
+		c := vCycAComplete(a.B.A, depth-1)
+		ok = ok && c
+	}
+	return ok
+}
+
+// H_M1_cycle_required: required fields below a cycle of message types (A -> B -> A, A -> Req).
+// Input: A{ b: B{ a: A{ r: Req{<free bytes>} } } } with the Req body symbolic. What
+// proto.Unmarshal reports (initialized flag, else CheckInitialized) must equal a reference walk
+// of the decoded tree.
+//
+//verif:props=C10 bounds=VCycA{b:VCycB{a:VCycA{r:VReq{body<=4-free-bytes}}}};type-A-initialised-first maxsteps=8000000
+func H_M1_cycle_required() {
+	n := nd.Int(0, 4)
+	body := nd.BytesN(n)
+	b := []byte{0x0a, byte(4 + n), 0x0a, byte(2 + n), 0x12, byte(n)}
+	b = append(b, body...)
+	mi := vMI_CycA()
+	p := pointer{p: unsafe.Pointer(new(VCycA))}
+	out, err := mi.unmarshalPointer(b, p, 0, mOpts())
+	nd.Assume(err == nil)
+	nd.Reach("decoded")
+	reported := out.initialized || mi.checkInitializedPointer(p) == nil
+	want := vCycAComplete((*VCycA)(p.p), 4)
+	if want {
+		nd.Reach("complete")
+	} else {
+		nd.Reach("partial")
+	}
+	nd.Assert(reported == want, "Unmarshal/CheckInitialized report a missing required field below a cycle of message types")
 }
